@@ -162,8 +162,8 @@ Proof.
   intros Hc [Ha Hn]. unfold bump_soa.
   assert (Hsame : z_cur s = z_cur s /\ z_q c (w_new wr) s /\ z_eqv (z_rollback s (w_new wr)) (z_rollback s (w_new wr)))
     by (split; [reflexivity|split; [split; assumption|apply z_eqv_refl]]).
-  destruct (rs_get (z_apex s) 6 (z_cur s)) as [old|]; [|exact Hsame].
-  destruct (match rs_get (z_apex s) 6 (w_new wr) with None => true | Some new => new =? old end); [|exact Hsame].
+  destruct (get_soa s (z_cur s)) as [old|]; [|exact Hsame].
+  destruct (match get_soa s (w_new wr) with None => true | Some new => soa_eqb new old end); [|exact Hsame].
   split; [reflexivity|split].
   - split; cbn [set_apex z_apex z_nodes]; [apply rs_at_q; auto using wl_update|exact Hn].
   - rewrite !z_rollback_eq. split; cbn [set_apex z_apex z_nodes]; [|apply ns_le_refl].
@@ -430,7 +430,7 @@ Qed.
 (* walk enumerates exactly the records of the reader's version: the RRsets that
    have a value at that version, the CNAME of a CNAME node, NS / DS / glue of a
    zone cut -- and nothing below a zone cut *)
-Inductive n_has (v : N) : list N -> znode -> (list N * N * N) -> Prop :=
+Inductive n_has (v : N) : list N -> znode -> (list N * N * rrv) -> Prop :=
 | has_rr path rs sp ch t d rr :
     In (t, d) rs -> v_get d v = Some rr -> n_has v path (mknode rs sp ch) (path, t, rr)
 | has_cut_ns path rs sp ch ns ds glue :
@@ -522,7 +522,7 @@ Lemma rs_update_le c rs t rr :
   Forall (fun p => le_all c (snd p)) rs -> Forall (fun p => le_all c (snd p)) (rs_update rs t rr c).
 Proof.
   intros H. unfold rs_update, rs_remove_rtype, rs_at.
-  destruct ((rr =? 0) && update_empty_rrset_is_remove);
+  destruct (rrv_is_empty rr && update_empty_rrset_is_remove);
     (apply Forall_al_upd; [|constructor|exact H]); intros d Hd; [now apply le_remove|now apply le_update].
 Qed.
 
@@ -589,7 +589,10 @@ Qed.
 
 (* ---------------------------------------------------------------- non-vacuity *)
 
-Definition wit_zone : zstate := build [IRrset [] 6 1; IRrset [2] 1 11].
+(* the RRsets of the examples: one record, TTL 3600 *)
+Definition r1 (x : N) : rrv := (3600, [x]).
+
+Definition wit_zone : zstate := build [IRrset [] 6 (r1 1); IRrset [2] 1 (r1 11)].
 
 Lemma wit_zinv : zinv wit_zone /\ z_writer wit_zone = None /\ z_cur wit_zone = 0.
 Proof.
@@ -599,21 +602,21 @@ Qed.
 (* the history of DESIGN section 7 #13 (node existence used not to be versioned):
    update_child for a new name, seen by a held reader, then aborted / committed *)
 Example ex_update_child_invisible :
-  let s1 := run wit_zone [EWAcquire; EWOpen; EUpdate [3] 1 12] in
-  query wit_zone 0 [3] 1 = ANx (Some 1) /\
-  query s1 0 [3] 1 = ANx (Some 1) /\
-  query (run s1 [EDrop]) 0 [3] 1 = ANx (Some 1) /\
-  query (run s1 [ECommit]) 0 [3] 1 = ANx (Some 1) /\
-  query (run s1 [ECommit]) 1 [3] 1 = AData 12 /\
+  let s1 := run wit_zone [EWAcquire; EWOpen; EUpdate [3] 1 (r1 12)] in
+  query wit_zone 0 [3] 1 = ANx (Some (3600, 1)) /\
+  query s1 0 [3] 1 = ANx (Some (3600, 1)) /\
+  query (run s1 [EDrop]) 0 [3] 1 = ANx (Some (3600, 1)) /\
+  query (run s1 [ECommit]) 0 [3] 1 = ANx (Some (3600, 1)) /\
+  query (run s1 [ECommit]) 1 [3] 1 = AData (r1 12) /\
   node_exists (z_nodes (run s1 [EDrop])) 3 = true.
 Proof. repeat split; reflexivity. Qed.
 
 Example ex_session :
-  query (run wit_zone ([EWAcquire; EWOpen] ++ [EUpdate [2] 1 13])) 0 [2] 1 = AData 11 /\
-  query (run wit_zone ([EWAcquire; EWOpen] ++ [EUpdate [2] 1 13] ++ [ECommit])) 1 [2] 1 = AData 13 /\
-  query (run wit_zone ([EWAcquire; EWOpen] ++ [EUpdate [2] 1 13] ++ [ECommit])) 0 [2] 1 = AData 11 /\
-  query (run wit_zone ([EWAcquire; EWOpen] ++ [EUpdate [2] 1 13] ++ [EDrop])) 1 [2] 1 = AData 11 /\
-  walk (run wit_zone ([EWAcquire; EWOpen] ++ [EUpdate [2] 1 13] ++ [ECommit])) 1 = [([], 6, 1); ([2], 1, 13)].
+  query (run wit_zone ([EWAcquire; EWOpen] ++ [EUpdate [2] 1 (r1 13)])) 0 [2] 1 = AData (r1 11) /\
+  query (run wit_zone ([EWAcquire; EWOpen] ++ [EUpdate [2] 1 (r1 13)] ++ [ECommit])) 1 [2] 1 = AData (r1 13) /\
+  query (run wit_zone ([EWAcquire; EWOpen] ++ [EUpdate [2] 1 (r1 13)] ++ [ECommit])) 0 [2] 1 = AData (r1 11) /\
+  query (run wit_zone ([EWAcquire; EWOpen] ++ [EUpdate [2] 1 (r1 13)] ++ [EDrop])) 1 [2] 1 = AData (r1 11) /\
+  walk (run wit_zone ([EWAcquire; EWOpen] ++ [EUpdate [2] 1 (r1 13)] ++ [ECommit])) 1 = [([], 6, r1 1); ([2], 1, r1 13)].
 Proof. repeat split; reflexivity. Qed.
 Example ex_second_writer :
   trace wit_zone [] [EWAcquire; EWAcquire; EDrop; EWAcquire] = [OGranted; OPending; OGranted].
@@ -623,34 +626,34 @@ Proof. reflexivity. Qed.
    wildcard beside them stops matching for new readers only; remove_all at the
    inner node reaches the grandchild; a zone cut refers and ends the walk *)
 Example ex_tree :
-  let z := build [IRrset [] 6 1; IRrset [2; 1] 1 81; ICut [4] 91 (Some 92) None; IRrset [4; 5] 1 94] in
-  let s1 := run z [EWAcquire; EWOpen; EUpdate [2; 3; 4] 1 82] in
-  query z 0 [2; 3] 1 = AData 81 /\
-  query s1 0 [2; 3] 1 = AData 81 /\
-  query (run s1 [ECommit]) 0 [2; 3] 1 = AData 81 /\
-  query (run s1 [ECommit]) 1 [2; 3] 1 = ANoData (Some 1) /\
-  query (run s1 [ECommit]) 1 [2; 3; 4] 1 = AData 82 /\
-  query (run s1 [EDrop]) 0 [2; 3; 4] 1 = AData 81 /\
-  query (run s1 [ECommit; EWOpen; ERemoveAllAt [2]; ECommit]) 2 [2; 3; 4] 1 = ANx (Some 1) /\
-  query (run s1 [ECommit; EWOpen; ERemoveAllAt [2]; ECommit]) 1 [2; 3; 4] 1 = AData 82 /\
-  query z 0 [4; 5] 1 = ARefer 91 (Some 92) None /\ query z 0 [4] 43 = AData 92 /\
-  walk z 0 = [([], 6, 1); ([2; 1], 1, 81); ([4], 2, 91); ([4], 43, 92)] /\
+  let z := build [IRrset [] 6 (r1 1); IRrset [2; 1] 1 (r1 81); ICut [4] (r1 91) (Some (r1 92)) None; IRrset [4; 5] 1 (r1 94)] in
+  let s1 := run z [EWAcquire; EWOpen; EUpdate [2; 3; 4] 1 (r1 82)] in
+  query z 0 [2; 3] 1 = AData (r1 81) /\
+  query s1 0 [2; 3] 1 = AData (r1 81) /\
+  query (run s1 [ECommit]) 0 [2; 3] 1 = AData (r1 81) /\
+  query (run s1 [ECommit]) 1 [2; 3] 1 = ANoData (Some (3600, 1)) /\
+  query (run s1 [ECommit]) 1 [2; 3; 4] 1 = AData (r1 82) /\
+  query (run s1 [EDrop]) 0 [2; 3; 4] 1 = AData (r1 81) /\
+  query (run s1 [ECommit; EWOpen; ERemoveAllAt [2]; ECommit]) 2 [2; 3; 4] 1 = ANx (Some (3600, 1)) /\
+  query (run s1 [ECommit; EWOpen; ERemoveAllAt [2]; ECommit]) 1 [2; 3; 4] 1 = AData (r1 82) /\
+  query z 0 [4; 5] 1 = ARefer (r1 91) (Some (r1 92)) None /\ query z 0 [4] 43 = AData (r1 92) /\
+  walk z 0 = [([], 6, r1 1); ([2; 1], 1, r1 81); ([4], 2, r1 91); ([4], 43, r1 92)] /\
   query z 0 [2; 1] 255 = AAny.
 Proof. repeat split; reflexivity. Qed.
 
 (* commit(true): the SOA serial is bumped unless the writer stored a new SOA; old readers keep theirs *)
 Example ex_commit_bump :
-  let s1 := run wit_zone [EWAcquire; EWOpen; EUpdate [2] 1 13] in
-  query (run s1 [ECommitBump]) 1 [] 6 = AData 2 /\
-  query (run s1 [ECommitBump]) 0 [] 6 = AData 1 /\
-  query (run s1 [ECommitBump]) 1 [3] 1 = ANx (Some 2) /\
-  query (run s1 [EUpdate [] 6 7; ECommitBump]) 1 [] 6 = AData 7 /\
-  query (run s1 [ERemove [] 6; ECommitBump]) 1 [] 6 = AData 2 /\
-  query (run s1 [ECommit]) 1 [] 6 = AData 1 /\
+  let s1 := run wit_zone [EWAcquire; EWOpen; EUpdate [2] 1 (r1 13)] in
+  query (run s1 [ECommitBump]) 1 [] 6 = AData (r1 2) /\
+  query (run s1 [ECommitBump]) 0 [] 6 = AData (r1 1) /\
+  query (run s1 [ECommitBump]) 1 [3] 1 = ANx (Some (3600, 2)) /\
+  query (run s1 [EUpdate [] 6 (r1 7); ECommitBump]) 1 [] 6 = AData (r1 7) /\
+  query (run s1 [ERemove [] 6; ECommitBump]) 1 [] 6 = AData (r1 2) /\
+  query (run s1 [ECommit]) 1 [] 6 = AData (r1 1) /\
   (* the serial wraps like Serial::add: 2^32 - 1 is followed by 0, which is a SOA, not an absence *)
-  query (run (build [IRrset [] 6 4294967295]) [EWAcquire; ECommitBump]) 1 [] 6 = AData 0 /\
-  query (run (build [IRrset [] 6 4294967295]) [EWAcquire; ECommitBump; ECommitBump]) 2 [] 6 = AData 1 /\
-  query (run (build [IRrset [] 6 4294967295]) [EWAcquire; ECommitBump]) 1 [3] 1 = ANx (Some 0).
+  query (run (build [IRrset [] 6 (r1 4294967295)]) [EWAcquire; ECommitBump]) 1 [] 6 = AData (r1 0) /\
+  query (run (build [IRrset [] 6 (r1 4294967295)]) [EWAcquire; ECommitBump; ECommitBump]) 2 [] 6 = AData (r1 1) /\
+  query (run (build [IRrset [] 6 (r1 4294967295)]) [EWAcquire; ECommitBump]) 1 [3] 1 = ANx (Some (3600, 0)).
 Proof. repeat split; reflexivity. Qed.
 
 (* ---------------------------------------------------------------- write handle used after its session *)
@@ -663,12 +666,12 @@ Lemma stale_handle_refuted :
   stale_handle_rejected = false ->
   exists s evs r name t,
     zinv s /\ r <= z_cur s /\ z_cur s + ncommits evs + 2 < LIM /\ no_stale evs = false /\
-    query s r name t = AData 21 /\ query (run s evs) r name t = AData 22.
+    query s r name t = AData (r1 21) /\ query (run s evs) r name t = AData (r1 22).
 Proof.
   intros H.
   first
     [ discriminate H
-    | exists (run wit_zone [EWAcquire; EWOpen; EUpdate [2] 1 21; ECommit]), [EStale (EUpdate [2] 1 22)], 1, [2], 1;
+    | exists (run wit_zone [EWAcquire; EWOpen; EUpdate [2] 1 (r1 21); ECommit]), [EStale (EUpdate [2] 1 (r1 22))], 1, [2], 1;
       split; [apply reachable_invariant; [cbn; unfold LIM; lia|right; reflexivity]|];
       repeat split; try reflexivity; cbn; unfold LIM; lia ].
 Qed.
@@ -679,19 +682,19 @@ Lemma stale_handle_after_drop_refuted :
   stale_handle_rejected = false ->
   exists s evs name t,
     zinv s /\ z_writer s = None /\ no_stale evs = false /\
-    query s 1 name t = ANoData (Some 1) /\ query (run s evs) 1 name t = AData 31.
+    query s 1 name t = ANoData (Some (3600, 1)) /\ query (run s evs) 1 name t = AData (r1 31).
 Proof.
   intros H.
   first
     [ discriminate H
-    | exists (run wit_zone [EWAcquire; EWOpen; EUpdate [2] 1 21; EDrop]),
-        [EStale (EUpdate [2] 16 31); EWAcquire; EWOpen; EUpdate [2] 1 22; ECommit], [2], 16;
+    | exists (run wit_zone [EWAcquire; EWOpen; EUpdate [2] 1 (r1 21); EDrop]),
+        [EStale (EUpdate [2] 16 (r1 31)); EWAcquire; EWOpen; EUpdate [2] 1 (r1 22); ECommit], [2], 16;
       split; [apply reachable_invariant; [cbn; unfold LIM; lia|right; reflexivity]|];
       repeat split; reflexivity ].
 Qed.
 
 Example ex_stale_rejected_or_effective :
-  trace (run wit_zone [EWAcquire; EWOpen; ECommit]) [] [EStale (EUpdate [2] 1 22)]
+  trace (run wit_zone [EWAcquire; EWOpen; ECommit]) [] [EStale (EUpdate [2] 1 (r1 22))]
   = [if stale_handle_rejected then OStaleRejected else OStaleDone].
 Proof. reflexivity. Qed.
 
@@ -762,10 +765,10 @@ Qed.
 
 Example ex_more_flags :
   (* a node that only has a CNAME exists; one that has nothing does not *)
-  query (build [IRrset [] 6 1; ICname [2] 7]) 0 [2] 1 = ACname 7 /\
-  query (run (build [IRrset [] 6 1; ICname [2] 7]) [EWAcquire; EWOpen; ERegular [2]; ECommit]) 1 [2] 1 = ANx (Some 1) /\
+  query (build [IRrset [] 6 (r1 1); ICname [2] (r1 7)]) 0 [2] 1 = ACname (r1 7) /\
+  query (run (build [IRrset [] 6 (r1 1); ICname [2] (r1 7)]) [EWAcquire; EWOpen; ERegular [2]; ECommit]) 1 [2] 1 = ANx (Some (3600, 1)) /\
   (* an update with the empty RRset removes *)
-  query (run wit_zone [EWAcquire; EWOpen; EUpdate [2] 1 0; ECommit]) 1 [2] 1 = ANx (Some 1).
+  query (run wit_zone [EWAcquire; EWOpen; EUpdate [2] 1 (3600, []); ECommit]) 1 [2] 1 = ANx (Some (3600, 1)).
 Proof. repeat split; reflexivity. Qed.
 
 (* ---------------------------------------------------------------- no trace of an aborted version *)
@@ -836,14 +839,14 @@ Proof.
 Qed.
 
 Example ex_reopen_two_writers :
-  trace wit_zone [] [EWAcquire; EWOpen; EUpdate [2] 1 21; ECommit; EWAcquire; EWOpen; EUpdate [2] 1 22; ECommit; EDrop; EWAcquire; EDump]
+  trace wit_zone [] [EWAcquire; EWOpen; EUpdate [2] 1 (r1 21); ECommit; EWAcquire; EWOpen; EUpdate [2] 1 (r1 22); ECommit; EDrop; EWAcquire; EDump]
   = [OGranted; OPending; OGranted; ODump [0; 2; 1; 0]].
 Proof. reflexivity. Qed.
 
 Example ex_abort_after_removing_everything :
-  let z := build [IRrset [] 6 1; IRrset [2; 3] 1 11] in
+  let z := build [IRrset [] 6 (r1 1); IRrset [2; 3] 1 (r1 11)] in
   (* the aborted version removes all data of 3.2 (the name stops existing in it): no marker stays *)
   trace z [] [EWAcquire; EWOpen; ERemove [2; 3] 1; ERemoveAll; EDump; EDrop; EDump;
-              EWAcquire; EWOpen; EUpdate [2; 3; 4] 16 7; ECommit; EDump; EAcquire 0; EQuery 0 [2; 3] 1; EQuery 0 [2; 3; 4] 16]
-  = [OGranted; ODump [1; 0; 1; 0]; ODump [0; 0]; OGranted; ODump [0; 0; 1; 1]; OAnswer (AData 11); OAnswer (AData 7)].
+              EWAcquire; EWOpen; EUpdate [2; 3; 4] 16 (r1 7); ECommit; EDump; EAcquire 0; EQuery 0 [2; 3] 1; EQuery 0 [2; 3; 4] 16]
+  = [OGranted; ODump [1; 0; 1; 0]; ODump [0; 0]; OGranted; ODump [0; 0; 1; 1]; OAnswer (AData (r1 11)); OAnswer (AData (r1 7))].
 Proof. reflexivity. Qed.
